@@ -8,6 +8,8 @@ package streamsql
 // instances.
 global_writer C20 functions.aggregatorAdapters functions.RegisterAggregatorAdapter
 global_writer C20 functions.globalBridge functions.GetExprBridge
+global_writer C20 functions.ExprBridge.preprocessCache functions.(*ExprBridge).preprocessCached
+global_writer C20 functions.ExprBridge.programCache functions.(*ExprBridge).CompileExpressionWithStreamSQLFunctions
 global_writer C20 functions.legacyAggregatorRegistry functions.RegisterLegacyAggregator
 global_writer C20 logger.defaultInstance logger.SetDefault
 @*/
